@@ -33,7 +33,7 @@ def _binop(uf_name, reflected=False):
         uf = globals()[uf_name]
         if isinstance(other, (list, tuple)):
             other = asarray(other)
-        if not isinstance(other, (generic, ndarray, int, float, bool)) and not is_sym(other):
+        if not isinstance(other, (generic, SymPy, ndarray, int, float, bool)) and not is_sym(other):
             # defer to other's __array_ufunc__ if present
             if hasattr(other, "__array_ufunc__"):
                 if getattr(other, "__array_ufunc__") is None:
@@ -95,6 +95,11 @@ class generic(_OpsMixin, metaclass=_ScalarMeta):
     def __new__(cls, val=0, _dt=None, weak=False):
         if isinstance(val, ndarray) and val.ndim > 0:
             return val.astype(cls._dt)
+        if isinstance(val, SymPy):
+            src = val._pdt
+            val = _cast(val.val, src, _dt or cls._dt)
+        if weak and is_sym(val):
+            return SymPy(val, _dt or cls._dt)
         self = object.__new__(cls)
         if isinstance(val, (generic, ndarray)):
             src = val.dtype
@@ -110,8 +115,8 @@ class generic(_OpsMixin, metaclass=_ScalarMeta):
     # conversions
     def item(self):
         if is_sym(self.val):
-            # a python-level scalar with symbolic value: stays symbolic (weak), concretised only on int()/bool()
-            return self.dtype.type(self.val, _dt=self.dtype, weak=True)
+            # a python-level scalar with symbolic value: stays symbolic, concretised only on int()/bool()
+            return SymPy(self.val, self.dtype)
         return _concrete(self.val, self.dtype)
 
     def __int__(self):
@@ -163,6 +168,45 @@ class object_(generic): pass
 
 numbers.Integral.register(integer)
 numbers.Real.register(floating)
+
+
+class SymPy(_OpsMixin):
+    """A python-level scalar (int or bool) with a symbolic value.  Unlike numpy scalars it has no dtype/shape
+    attributes (repo code distinguishes python numbers from numpy objects with hasattr(x, "dtype")); in ufuncs it
+    is a *weak* operand (NEP 50).  int()/bool()/index use fork through the executor."""
+    weak = True
+    __array_priority__ = -1000000.0
+
+    def __init__(self, val, pdt=None):
+        self.val = val
+        self._pdt = pdt if pdt is not None else (_BOOL if (is_sym(val) and z3.is_bool(val)) or isinstance(val, builtins.bool) else _I64)
+
+    def __int__(self):
+        return int(_concrete(self.val, self._pdt))
+
+    __index__ = __int__
+
+    def __float__(self):
+        return float(_concrete(self.val, self._pdt))
+
+    def __bool__(self):
+        return _truth(self.val)
+
+    def __hash__(self):
+        return hash(_concrete(self.val, self._pdt))
+
+    def __repr__(self):
+        return f"SymPy({self.val})"
+
+
+numbers.Integral.register(SymPy)
+
+
+def _mkpy(val, dt):
+    """python-level result value: plain python value when concrete, SymPy when symbolic"""
+    if is_sym(val):
+        return SymPy(val, _BOOL if z3.is_bool(val) else dt if dt.kind in "iub" else dt)
+    return val
 
 
 class dtype:
@@ -485,6 +529,15 @@ def _is_bits_term(c):
     return is_sym(c) and z3.is_bv(c) and _contains_bits(c)
 
 
+def _int_to_bv(t, w):
+    t = z3.simplify(t)
+    if z3.is_int_value(t):
+        return z3.BitVecVal(t.as_long(), w)
+    if z3.is_app(t) and t.decl().kind() == z3.Z3_OP_ITE:
+        return z3.If(t.arg(0), _int_to_bv(t.arg(1), w), _int_to_bv(t.arg(2), w))
+    return z3.Int2BV(t, w)
+
+
 def _coerce_pair(a, b, arith=True):
     if arith and _is_bits_term(a) and not (is_sym(b) and z3.is_bv(b) and not _is_bits_term(b)):
         a = _bv_to_int(a)
@@ -496,9 +549,23 @@ def _coerce_pair(a, b, arith=True):
         return _lift(a, b), b
     if is_sym(a) and is_sym(b):
         if z3.is_bv(a) and z3.is_int(b):
-            return _bv_to_int(a), b
+            if _is_bits_term(a):
+                return _bv_to_int(a), b
+            return a, _int_to_bv(b, a.size())       # genuine bit-vector data: exact (mod 2^w) conversion of the Int side
         if z3.is_int(a) and z3.is_bv(b):
-            return a, _bv_to_int(b)
+            if _is_bits_term(b):
+                return a, _bv_to_int(b)
+            return _int_to_bv(a, b.size()), b
+        if z3.is_bool(a) and z3.is_bv(b):
+            return z3.If(a, z3.BitVecVal(1, b.size()), z3.BitVecVal(0, b.size())), b
+        if z3.is_bv(a) and z3.is_bool(b):
+            return a, z3.If(b, z3.BitVecVal(1, a.size()), z3.BitVecVal(0, a.size()))
+        if z3.is_bool(a) and z3.is_int(b):
+            return z3.If(a, 1, 0), b
+        if z3.is_int(a) and z3.is_bool(b):
+            return a, z3.If(b, 1, 0)
+        if z3.is_bv(a) and z3.is_bv(b) and a.size() != b.size():
+            raise ShimUnsupported("bit-vector width mismatch %d/%d" % (a.size(), b.size()))
         return a, b
     return _lift(a), _lift(b)
 
@@ -595,7 +662,7 @@ def _norm_slice(s, n):
     def c(x):
         if x is None:
             return None
-        if isinstance(x, generic):
+        if isinstance(x, (generic, SymPy)):
             return int(x)
         if is_sym(x):
             return E().concretize(x)
@@ -679,7 +746,7 @@ class ndarray(_OpsMixin):
 
     def tolist(self):
         # python-level values; symbolic cells stay symbolic as weak (python-like) scalars
-        return _nest([c if not is_sym(c) else self.dtype.type(c, _dt=self.dtype, weak=True) for c in self._cells()], self.shape)
+        return _nest([c if not is_sym(c) else SymPy(c, self.dtype) for c in self._cells()], self.shape)
 
     def copy(self):
         return ndarray(_Store(self._cells()), list(range(self.size)), self.shape, self.dtype)
@@ -739,6 +806,12 @@ class ndarray(_OpsMixin):
                             return ndarray(self._store, self._pos, self.shape, dt, self._contig)
                         return ndarray(_Store(newc), list(range(self.size)), self.shape, dt)  # snapshot (write-through unsupported)
                 newc = [(_bits(c, dt.bits) if (is_sym(c) and z3.is_int(c)) else c if is_sym(c) else _wrap_int(c, dt)) for c in cells]
+                return ndarray(_Store(newc), list(range(self.size)), self.shape, dt)
+            if self.dtype.kind == "b" and dt.kind in "iu":
+                newc = [(z3.If(c, z3.BitVecVal(1, 8), z3.BitVecVal(0, 8)) if is_sym(c) else int(c)) for c in self._cells()]
+                return ndarray(_Store(newc), list(range(self.size)), self.shape, dt)      # snapshot (writes do not propagate)
+            if dt.kind == "b" and self.dtype.kind in "iu":
+                newc = [(_as_bool_term(c) if is_sym(c) else builtins.bool(c)) for c in self._cells()]
                 return ndarray(_Store(newc), list(range(self.size)), self.shape, dt)
             if {dt.kind, self.dtype.kind} <= {"f", "u", "i"} and _py_all(is_sym(c) and z3.is_bv(c) for c in self._cells()):
                 return ndarray(self._store, self._pos, self.shape, dt, self._contig)   # float <-> uint bit pattern: shared store
@@ -996,16 +1069,16 @@ def _bv_const(c, dt):
 
 
 def _is_sym_scalar(k):
-    return (isinstance(k, generic) and is_sym(k.val)) or (is_sym(k))
+    return (isinstance(k, (generic, SymPy)) and is_sym(k.val)) or (is_sym(k))
 
 
 def _scalar_val(k):
-    return k.val if isinstance(k, generic) else k
+    return k.val if isinstance(k, (generic, SymPy)) else k
 
 
 def _wrap_index(i, n):
     """python/numpy negative-index wrap with bounds check (forks to IndexError path if violable)."""
-    if isinstance(i, generic):
+    if isinstance(i, (generic, SymPy)):
         i = i.val
     if not is_sym(i):
         i = int(i)
@@ -1110,6 +1183,8 @@ def _bcast_vals(value, shape, dt):
         return [_cast(c, value.dtype, dt) for c in b._cells()]
     if isinstance(value, generic):
         return [_cast(value.val, value.dtype, dt)] * n
+    if isinstance(value, SymPy):
+        return [_cast(value.val, value._pdt, dt)] * n
     if is_sym(value):
         return [value] * n
     return [_cast(value, _pydt(value), dt)] * n
@@ -1122,6 +1197,8 @@ def _from_nested(obj):
         return obj._cells(), obj.shape, obj.dtype
     if isinstance(obj, generic):
         return [obj.val], (), obj.dtype
+    if isinstance(obj, SymPy):
+        return [obj.val], (), obj._pdt
     if isinstance(obj, (list, tuple, range)) or hasattr(obj, "__iter__") and not is_sym(obj):
         items = [_from_nested(x) for x in obj]
         if not items:
@@ -1178,7 +1255,7 @@ def _shape_arg(shape):
 def full(shape, fill_value, dtype=None):
     shape = _shape_arg(shape)
     if dtype is None:
-        dt = fill_value.dtype if isinstance(fill_value, generic) else _pydt(fill_value)
+        dt = fill_value.dtype if isinstance(fill_value, generic) else fill_value._pdt if isinstance(fill_value, SymPy) else _pydt(fill_value)
     else:
         dt = globals()["dtype"](dtype)
     v = _bcast_vals(fill_value, (1,), dt)[0]
@@ -1281,13 +1358,15 @@ def _promote_all(dts):
 
 
 def result_type(*args):
-    dts = []
+    ops = []
     for a in args:
         if isinstance(a, (builtins.int, builtins.float, builtins.bool)):
-            dts.append(_pydt(a))
+            ops.append((None, (), _pydt(a), True))          # python scalars are weak (NEP 50)
+        elif isinstance(a, SymPy):
+            ops.append((None, (), a._pdt, True))
         else:
-            dts.append(dtype(a))
-    return _promote_all(dts)
+            ops.append((None, (), dtype(a), False))
+    return add._res_dtype(ops)
 
 
 # ------------------------------------------------------------------ arithmetic on values
@@ -1467,6 +1546,8 @@ def _operand(x):
         return x._cells(), x.shape, x.dtype, False
     if isinstance(x, generic):
         return [x.val], (), x.dtype, x.weak
+    if isinstance(x, SymPy):
+        return [x.val], (), x._pdt, True
     if isinstance(x, (list, tuple)):
         a = asarray(x)
         return a._cells(), a.shape, a.dtype, False
@@ -1569,6 +1650,8 @@ class ufunc:
             o[...] = ndarray(_Store(res), list(range(len(res))), shp, out_dt)
             return o
         if shp == () and _py_all(not isinstance(x, ndarray) for x in inputs):
+            if _py_all(o[3] for o in ops):
+                return _mkpy(res[0], out_dt)       # python scalars in, python scalar out
             return out_dt.type(res[0], _dt=out_dt)
         return ndarray(_Store(res), list(range(len(res))), shp, out_dt)
 
@@ -2048,7 +2131,7 @@ def reshape(a, shape):
 
 
 def isscalar(x):
-    return isinstance(x, (generic, builtins.int, builtins.float, builtins.bool))
+    return isinstance(x, (generic, SymPy, builtins.int, builtins.float, builtins.bool))
 
 
 class _Lib:
